@@ -166,6 +166,30 @@ pub struct Transform {
 }
 
 impl Transform {
+    /// Weight
+    ///
+    /// The number of cells the patterns and templates of the rules are made of.
+    pub fn weight(&self) -> usize {
+        let mut pending: Vec<&Cell> = vec![];
+        for (pattern, template) in &self.syntax_rules {
+            pending.push(&pattern.expr);
+            pending.push(template);
+        }
+        let mut weight = 0_usize;
+        while let Some(cell) = pending.pop() {
+            weight = weight.saturating_add(1);
+            match cell {
+                Cell::Pair(car, cdr) => {
+                    pending.push(car);
+                    pending.push(cdr);
+                }
+                Cell::Vector(vector) => pending.extend(vector.iter()),
+                _ => {}
+            }
+        }
+        weight
+    }
+
     /// Try New
     ///
     /// Given a (define-syntax ...) expression, build a Transformer
